@@ -1,10 +1,14 @@
 --------------------------- MODULE RedactHistTrace ---------------------------
-(* Trace validation of recorded histories: "reset" starts a history, "call"    *)
-(* logs the class of the argument, whether the returned pointer is new (not an *)
-(* input, not any pointer returned before) and the class of the result,        *)
-(* "mutate" logs which retained result the harness changed and how; every line *)
-(* carries the classes of ALL retained results as they are after the step.     *)
-(* Accepted iff it is a behaviour of RedactHist with Impl = "clone".           *)
+(* Trace validation of recorded histories.  "reset" starts a history and lists  *)
+(* the classes of the caller's input objects; "call" names the argument object  *)
+(* (an input or an earlier result), its class as the harness sees it, whether    *)
+(* the returned pointer is the argument itself (alias) or one never seen before  *)
+(* (fresh), the class of the result and the error text after                     *)
+(* RedactUserinfoInURLError (untouched, or the class of the URL it prints);      *)
+(* "mutate" names the object its owner changed and how.  Every line carries the  *)
+(* classes of ALL objects after the step.  Accepted iff it is a behaviour of     *)
+(* RedactHist with Impl = "clone" -- except that a call may return its argument  *)
+(* itself when there is nothing to change (the statement does not forbid it).    *)
 EXTENDS RedactHist, Json
 
 Trace == ndJsonDeserialize("redact_hist_trace.ndjson")
@@ -12,28 +16,24 @@ VARIABLE l
 tvars == <<vars, l>>
 TInit == Init /\ l = 1
 Ev == Trace[l]
-Vals == [k \in DOMAIN results |-> heap[results[k]]]
-Mut(x, f) == CASE f = "path"  -> [x EXCEPT !.path = "mut"]
-               [] f = "query" -> [x EXCEPT !.query = "dropped"]
-               [] f = "user"  -> [x EXCEPT !.user = "creds"]
 
-(* here heap holds only the retained results; results = 1..Len(heap) *)
-TReset == Ev.op = "reset" /\ heap' = <<>> /\ results' = <<>> /\ UNCHANGED <<last, memo, steps>>
+TReset == Ev.op = "reset" /\ heap' = Ev.objects /\ UNCHANGED <<results, last, memo, pcache, steps>>
 TCall  == /\ Ev.op = "call"
-          /\ Ev.val = Redact(Ev.arg)                                  \* DependsOnArgOnly
-          /\ IF Ev.arg.user = "none"
-             THEN Ev.alias /\ UNCHANGED <<heap, results>>             \* returned as is
-             ELSE /\ Ev.fresh                                         \* FreshAcrossCalls
-                  /\ heap' = Append(heap, Redact(Ev.arg))
-                  /\ results' = Append(results, Len(heap) + 1)
-          /\ UNCHANGED <<last, memo, steps>>
+          /\ Ev.n \in DOMAIN heap
+          /\ Ev.arg = heap[Ev.n]                                       \* the harness and the spec agree on the argument
+          /\ Ev.val = Redact(Ev.arg)                                   \* DependsOnArgOnly
+          /\ Ev.err = ErrText(Ev.arg)                                  \* ErrTextOfThisArg
+          /\ IF Ev.arg.user = "none" THEN Ev.alias
+             ELSE Ev.fresh \/ (Ev.alias /\ Redact(Ev.arg) = Ev.arg)    \* FreshAcrossCalls / ResultsAreNew
+          /\ heap' = IF Ev.fresh THEN Append(heap, Redact(Ev.arg)) ELSE heap
+          /\ UNCHANGED <<results, last, memo, pcache, steps>>
 TMutate == /\ Ev.op = "mutate"
            /\ Ev.n \in DOMAIN heap
            /\ heap' = [heap EXCEPT ![Ev.n] = Mut(@, Ev.f)]
-           /\ UNCHANGED <<results, last, memo, steps>>
+           /\ UNCHANGED <<results, last, memo, pcache, steps>>
 TNext == /\ l <= Len(Trace)
          /\ l' = l + 1
          /\ (TReset \/ TCall \/ TMutate)
-         /\ Ev.retained = heap'                                       \* CallsWriteNothing, observed
+         /\ Ev.objects = heap'                                         \* CallsWriteNothing, observed
 TSpec == TInit /\ [][TNext]_tvars
 =============================================================================
